@@ -121,7 +121,7 @@ CORPUS = [
     "SELECT a.c1 FROM t1 a LEFT SEMI JOIN t2 b ON a.c1 = b.c1 ORDER BY a.c1 ASC NULLS LAST",
     "SELECT a.c1, a.c2 FROM t1 a LEFT ANTI JOIN t2 b ON a.c1 = b.c1 ORDER BY a.c1 ASC NULLS LAST, a.c2 DESC NULLS FIRST",
     "SELECT c1, count(*) AS n FROM (SELECT c1 FROM t1 UNION ALL SELECT c1 FROM t2) u GROUP BY c1",
-    "SELECT c1, c2, count(*) AS n FROM (SELECT c1, c2 FROM t1 UNION ALL SELECT c1, c2 FROM t2 UNION ALL SELECT c1, c1 FROM t3) u GROUP BY c1, c2 ORDER BY c1 ASC NULLS LAST",
+    "SELECT c1, c2, count(*) AS n FROM (SELECT c1, c2 FROM t1 UNION ALL SELECT c1, c2 FROM t2 UNION ALL SELECT c1, c1 AS c2 FROM t3) u GROUP BY c1, c2 ORDER BY c1 ASC NULLS LAST",
     "SELECT c1, c3 FROM t1 ORDER BY c1 ASC NULLS LAST, c3 ASC NULLS LAST",
     "SELECT c2, c1 FROM t1 ORDER BY c2 DESC NULLS LAST, c1 ASC NULLS LAST",
     "SELECT c1, c2 FROM t2 ORDER BY c1 ASC NULLS LAST, c2 DESC NULLS LAST LIMIT 4",
@@ -139,7 +139,7 @@ CORPUS = [
 ]
 
 
-def build_runs(ctx, n_tlc, n_big, configs, big_rows=14, tlc_rows=4, gens=None, corpus=1):
+def build_runs(ctx, n_tlc, n_big, configs, big_rows=14, tlc_rows=4, gens=None, corpus=1, extra_corpus=()):
     """Returns (lines for the recorder, meta by run id, TLC generation result list).
     Sources of queries: TLC-generated plans (PlanGen, with the reference result) and the corpus; sources of
     data: the TLC-generated databases and larger random databases; each under every listed configuration."""
@@ -170,7 +170,7 @@ def build_runs(ctx, n_tlc, n_big, configs, big_rows=14, tlc_rows=4, gens=None, c
         cf = configs[k % len(configs)]
         add(f"{c['id']}/big{k % len(dbs)}/{cf}", c["sql"], db, cf, src="plangen-big")
     if corpus:
-        for qi, sql in enumerate(CORPUS):
+        for qi, sql in enumerate(CORPUS + list(extra_corpus)):
             for di, db in enumerate(dbs[:corpus] + ([cases[0]["tables"]] if cases else [])):
                 for cf in configs:
                     add(f"q{qi}/d{di}/{cf}", sql, db, cf, src="corpus")
@@ -191,7 +191,7 @@ REJECT_RE = re.compile(r'^<<"REJECT", (.*)>>\s*$')
 
 KEEP = {"C28": ("id", "ords", "outord", "classes", "consts", "hash", "streams"),
         "C29": ("id", "w", "np", "full", "stats", "streams"),
-        "C30": ("id", "w", "schema", "streams"),
+        "C30": ("id", "w", "schema", "streams", "fns"),
         "C53": ("id", "full", "metrics", "streams")}
 
 
@@ -215,7 +215,10 @@ def slim(run, check):
         m["streams"] = [{"p": s["p"], "batches": [{k: (b[k] if (k != "rows" or rows) else []) for k in bk} for b in s["batches"]]}
                         for s in n["streams"]]
         nodes.append(m)
-    return {"id": run["id"], "nodes": nodes}
+    out = {"id": run["id"], "nodes": nodes}
+    if check == "C30":
+        out["logical"], out["root"] = run["logical"], run["root"]
+    return out
 
 
 def tlc_validate(ctx, check, logs, tag, chunk=1200):
